@@ -414,3 +414,96 @@ def run_sf_history(c):
         if np.array_equal(calls["f"][ka], calls["f"][kb]) and all(np.array_equal(r, calls["f"][ka]) for r in requests[ra:rb + 1]):
             bad.setdefault("C15.no_reevaluation_at_the_cached_point", "the objective was evaluated twice in a row at %s" % (calls["f"][ka].tolist(),))
     return dict(violated=bad, nfev=int(sf.nfev), ngev=int(sf.ngev))
+
+
+def _fragment_update(x, steplength, d, lb, ub):
+    """Execute the iterate-update statements of the REAL main.py (between the failed-line-search test and the
+    re-evaluation sf.fun_and_grad(x)) on concrete arrays."""
+    import ast
+    import os
+    path = os.path.join(os.environ.get("SYMX_REPO", "/repo"), "lbfgsb", "main.py")
+    src = open(path).read()
+    tree = ast.parse(src)
+    fn = next(n for n in tree.body if isinstance(n, ast.FunctionDef) and n.name == "minimize_lbfgsb")
+    frag = None
+    for node in ast.walk(fn):
+        if isinstance(node, ast.If) and isinstance(node.test, ast.Compare) and getattr(node.test.left, "id", None) == "steplength":
+            stmts = []
+            for st in node.orelse:
+                if isinstance(st, ast.Assign) and isinstance(st.value, ast.Call) and "fun_and_grad" in ast.unparse(st.value):
+                    break
+                stmts.append(st)
+            frag = stmts
+            break
+    ns = dict(x=x, steplength=steplength, d=d, lb=lb, ub=ub, np=np)
+    exec(compile(ast.Module(body=frag, type_ignores=[]), path, "exec"), ns)
+    return ns["x"]
+
+
+@register("fp_linesearch")
+def run_fp_linesearch(c):
+    """Exact-float feasibility of the points the real line search evaluates and of the iterate main.py forms."""
+    from lbfgsb.linesearch import line_search
+    from lbfgsb.scalar_function import prepare_scalar_function
+    x, xbar, l, u = (np.array(c[k], dtype=float) for k in ("x", "xbar", "l", "u"))
+    d = xbar - x
+    out = []
+    for shape in ("linear", "quadratic", "given"):
+        pts = []
+        gvec = np.array(c["g"], dtype=float)
+        if shape == "given" and not (gvec.dot(d) < 0):
+            continue
+        if shape != "given":
+            gvec = -d / max(d.dot(d), 1e-300)
+
+        def f(z, _s=shape, _g=gvec):
+            pts.append(np.array(z, float).copy())
+            a = float((z - x).dot(_g))
+            return a if _s != "quadratic" else a + 0.4 * a * a
+
+        def g(z, _s=shape, _g=gvec):
+            a = float((z - x).dot(_g))
+            return _g if _s != "quadratic" else _g * (1 + 0.8 * a)
+        sf = prepare_scalar_function(f, x, jac=g, bounds=(l, u))
+        f0 = sf.fun(x)
+        g0 = sf.grad(x)
+        pts.clear()
+        with np.errstate(all="ignore"):
+            try:
+                step = line_search(x.copy(), f0, g0, d, l, u, c["iter"], 1e8, bool(np.all(np.isfinite(l)) and np.all(np.isfinite(u))), sf, 1e-3, 0.9, 0.1, max(c["T"], 20), -1, None)
+                exc = None
+            except Exception as e:  # noqa
+                step, exc = None, "%s: %s" % (type(e).__name__, e)
+        bad_pts = [p.tolist() for p in pts if np.any(p < l) or np.any(p > u)]
+        r = dict(shape=shape, step=None if step is None else float(step), exception=exc, outside=bad_pts[:3], n_points=len(pts))
+        if step is not None:
+            xn = _fragment_update(x.copy(), step, d, l, u)
+            r["iterate"] = np.asarray(xn).tolist()
+            r["iterate_outside"] = bool(np.any(xn < l) or np.any(xn > u))
+        out.append(r)
+    return dict(runs=out, d=d.tolist())
+
+
+@register("fp_subspace")
+def run_fp_subspace(c):
+    from lbfgsb.bfgsmats import LBFGSB_MATRICES
+    from lbfgsb.subspacemin import get_freev, subspace_minimization
+    n = c["n"]
+    x, xc, g, l, u = (np.array(c[k], dtype=float) for k in ("x", "xc", "g", "l", "u"))
+    mats = LBFGSB_MATRICES(n)
+    with np.errstate(all="ignore"):
+        fv, Z, A = get_freev(xc, l, u, 0, None, -1, None)
+        xbar = np.asarray(subspace_minimization(x, xc.copy(), fv, Z, A, np.zeros(1), g, l, u, mats), dtype=float)
+    return dict(xbar=[v.hex() for v in xbar], outside=bool(np.any(xbar < l) or np.any(xbar > u)), l=[v.hex() for v in l], u=[v.hex() for v in u])
+
+
+@register("fp_cauchy")
+def run_fp_cauchy(c):
+    from lbfgsb.bfgsmats import LBFGSB_MATRICES
+    from lbfgsb.cauchy import get_cauchy_point
+    n = c["n"]
+    x, g, l, u = (np.array(c[k], dtype=float) for k in ("x", "g", "l", "u"))
+    with np.errstate(all="ignore"):
+        xcp, cc = get_cauchy_point(x.copy(), g, l, u, LBFGSB_MATRICES(n), 0, -1, None)
+    xcp = np.asarray(xcp, dtype=float)
+    return dict(x_cp=[v.hex() for v in xcp], outside=bool(np.any(xcp < l) or np.any(xcp > u)))
